@@ -85,7 +85,7 @@ impl FixtureDatabase {
     { unimplemented!() }
 
 /*@ extract src/fixtures/analyzer.rs analyze_file_internal
-@tags C04 C06 C07 C10 C12
+@tags C04 C06 C07 C10 C12 C19
 @recv mut
 @wrapexpr 1 `file_path .file_name() .map(|n| n == "conftest.py") .unwrap_or(false)` => `Self::vp_is_conftest(&file_path)` with fn vp_is_conftest(file_path: &PathBuf) -> bool
 @sig
